@@ -143,7 +143,7 @@ def HS(name, cfg, **kw):
 def prune_stages(tier):
     st = [HS('prune-q', 'MC_AffTree_prune_q.cfg', post=pscale_variants(['alt20'], 3, only_ops={'eliminate'})),
           HS('prune-2d', 'MC_AffTree_prune_2d.cfg'), HS('prune-d3', 'MC_AffTree_prune_d3.cfg'),
-          HS('pruneg-q', 'MC_AffTree_pruneg_q.cfg'), HS('prunea-q', 'MC_AffTree_prunea_q.cfg')]
+          HS('pruneg-q', 'MC_AffTree_pruneg_q.cfg'), HS('prunea-q', 'MC_AffTree_prunea_q.cfg'), HS('prunedeep-q', 'MC_AffTree_prunedeep_q.cfg')]
     if tier == 'thorough':
         st += [HS('prune-t', 'MC_AffTree_prune_t.cfg'), HS('pruneg-t', 'MC_AffTree_pruneg_t.cfg')]
     return st
